@@ -22,6 +22,7 @@ const (
 )
 
 type pointWriter struct {
+	Body   *kit.Func // the function that executes the prepared INSERT (F, or a body F calls with the transaction)
 	F      *kit.Func
 	Table  string       // node_points | edge_points
 	Exec   *kit.SQLSite // the prepared INSERT's Exec
@@ -64,7 +65,30 @@ func newStoreModel(c *kit.Ctx) *storeModel {
 			continue
 		}
 		f := s.F.Root()
-		w := &pointWriter{F: f, Table: tbl, Exec: s}
+		w := &pointWriter{F: f, Body: f, Table: tbl, Exec: s}
+		// the INSERT may be executed in a body function that receives the transaction
+		// (edgePointsTx(tx, …)); the writer is then the function that begins the
+		// transaction and calls it
+		for hop := 0; hop < 2 && beginCallOf(f) == nil && txParamOf(f) != nil; hop++ {
+			var outer *kit.Func
+			n := 0
+			for _, g := range c.P.Funcs("store") {
+				if g.Body == nil || g.Lit != nil || g == f {
+					continue
+				}
+				for _, call := range g.AllCalls(false) {
+					if g.CalleeFunc(call) == f {
+						outer = g
+						n++
+					}
+				}
+			}
+			if n != 1 {
+				break
+			}
+			f = outer
+		}
+		w.F = f
 		for _, p := range f.Params() {
 			if kit.IsNamedType(p.Type(), dataPkg, "Points") {
 				w.Batch = p
